@@ -178,6 +178,31 @@ CLAIMED["C08"] = dict(
          "event/blackboard limits are not covered.",
     technique="Lean 4 proof (five-part inductive invariant: registries, connections, publisher memory accounting, subscriber storage) + differential correspondence model vs implementation",
     design="DESIGN.md §5 C08")
+CLAIMED["C06"] = dict(
+    level="proof",
+    text="Lean 4 theorems (a) over an L1 model of service create / open / open_or_create / drop for all four messaging patterns (static config = settings, dynamic config = registered nodes "
+         "and ports, per-node reference counts, tags; verify_service_configuration transcribed per pattern in code order) for ALL histories: one incarnation per name, a second create is refused "
+         "and changes nothing, a successful open returns exactly the creator's settings, open succeeds iff the service exists and every stated requirement is met — otherwise the FIRST failing "
+         "check in code order names the error and nothing changes, the service's resources exist iff it has a user (never removed earlier, never later), re-creation with other settings is seen by "
+         "later openers; (b) over a step-level interleaving model of concurrent creators / openers (tag, O_EXCL static config in locked state, unlock, dynamic config create + init + version, "
+         "registration; wait budgets for time-outs) for ANY number of processes and EVERY schedule: at most one creator succeeds, a successful opener has read a complete static config and a "
+         "fully initialised dynamic config, every run terminates with success or a documented error. Two statements are false and proved false with replays on the real code (known findings).",
+    note="Trusted: Lean kernel + 3 standard axioms; hand-written models (tie: differential run of the real builders, 1..3 nodes in one process, ipc: random, pairwise requirement matrices, "
+         "exhaustive short histories; strace step-list equality for create/open; multi-process stress as support only); no refinement theorem between the two models; dead-node cleanup "
+         "interfering with a live creator and the drop role of the step-level system are not modelled.",
+    technique="Lean 4 proof (history invariants for the L1 model; interleaving invariant + termination measure for the step-level model) + differential and strace correspondence",
+    design="DESIGN.md §5 C06, notes/C06-design.md")
+CLAIMED["C18"] = dict(
+    level="proof",
+    text="Lean 4 theorems decided in the kernel over error tables that a translator REGENERATES FROM THE C BINDING'S SOURCES ON EVERY RUN (61 C enums, 263 variants, 45 Rust->C mappings with "
+         "344 rows, printable names, *_string functions): for every enum codes are pairwise distinct; and — with the offending entries of the current sources excluded BY NAME and proved to be "
+         "exactly the offenders — codes are non-zero, names non-empty and distinct, every Rust error variant has a C value (total), distinct Rust variants get distinct C values (injective), every "
+         "C value is used (onto), every error enum has its *_string function. The full statements are false for the current sources and proved false (7 refutations = known findings). "
+         "Behavioural equivalence of C and Rust API (publish-subscribe fixed/slice payloads, events; C-only, Rust-only and mixed worlds) is established by differential runs (testing).",
+    note="Trusted: Lean kernel + axioms propext/Quot.sound; the translator's parser (regular expressions over the binding's sources, fails closed on unknown constructs; a catch-all arm replacing "
+         "the last explicit arm is NOT noticed); Part B is testing: ipc only, request-response / blackboard / waitset functions of the C API are covered by the tables only.",
+    technique="Lean 4 proof over tables translated from the source on every run (decide +kernel, exception lists proved exact) + four-world differential run C API vs Rust API",
+    design="DESIGN.md §5 C18, notes/C18-design.md")
 NOT_YET = {}
 
 def main():
